@@ -19,19 +19,19 @@ import (
 // Prop describes one property monitor.
 type Prop struct {
 	ID         string
-	Rule       string                          // how cases are generated and what counts as distinct / non-trivial
-	Exhaustive func(t Tier) bool               // whether the tier enumerates a finite space completely
-	Shards     func(t Tier) int                // number of child processes for the default parent
-	Run        func(c *Ctx)                    // shard body (runs in a child process)
-	Parent     func(p *ParentCtx) *Result      // optional: custom orchestration (relational checks across processes)
-	Check      func(r *Result, t Tier)         // post-merge minimum-observation checks (adds Inconclusive entries)
+	Rule       string                           // how cases are generated and what counts as distinct / non-trivial
+	Exhaustive func(t Tier) bool                // whether the tier enumerates a finite space completely
+	Shards     func(t Tier) int                 // number of child processes for the default parent
+	Run        func(c *Ctx)                     // shard body (runs in a child process)
+	Parent     func(p *ParentCtx) *Result       // optional: custom orchestration (relational checks across processes)
+	Check      func(r *Result, t Tier)          // post-merge minimum-observation checks (adds Inconclusive entries)
 	Replay     func(raw json.RawMessage) string // optional: re-execute a witness, return a description of what happened
 	Timeout    func(t Tier) time.Duration
 }
 
 var registry = map[string]*Prop{}
 
-func Register(p *Prop) { registry[p.ID] = p }
+func Register(p *Prop)       { registry[p.ID] = p }
 func Lookup(id string) *Prop { return registry[id] }
 func AllIDs() []string {
 	ids := []string{}
